@@ -80,6 +80,7 @@ var (
 	flagMutant  = flag.String("mutant", "", "run one mutant of the corpus (internal, thorough tier)")
 	flagListMut = flag.Bool("list-mutants", false, "list mutant ids for the property")
 	flagSeeded  = flag.String("seeded", "", "run one seeded change (directory under /verif/seeded; internal, thorough tier)")
+	flagGenKnown = flag.Bool("gen-known", false, "print knownfuncs.go (table and fingerprints of the library's functions) for -repo and exit")
 	flagPreserv = flag.String("preserving", "", "run one behaviour-preserving refactoring (directory under /verif/preserving; internal, thorough tier)")
 	flagVariant = flag.String("variant", "", "internal: build-configuration variant (386|race|tests)")
 	flagNoEv    = flag.Bool("noevidence", false, "do not write evidence (development / subprocess)")
@@ -87,6 +88,10 @@ var (
 
 func main() {
 	flag.Parse()
+	if *flagGenKnown {
+		genKnown(*flagRepo)
+		return
+	}
 	if *flagProp == "" {
 		fmt.Fprintln(os.Stderr, "usage: gkvcheck -property Cnn [-tier quick|thorough]")
 		os.Exit(2)
